@@ -26,16 +26,16 @@ CHECKS = {
  'C10': ('model_checking', 'S+Mon', 'TraceMon clauses C10.converge (third identical evaluation has no effect), C10.norepeat, C10.cmdonce on the real histories (events family repeats evaluations three times); C10.fresh compares a long-lived instance with a fresh OS process on the same world.', 'TLA+ trace monitors on real executions + fresh-process differential'),
  'C11': ('model_checking', 'F', 'Exhaustive: 163,840 cases (configuration x ticket fragment x issue x every subset of 6 fix versions x 4 target lists), oracle spec/Jira.tla evaluated by TLC, each executed on the real jira_checks.', 'TLA+ oracle enumerated by TLC, differential against the real function'),
  'C12': ('model_checking', 'S+Mon', 'TraceMon clauses C12.held.* / C12.nocomment / C12.lifted on the holds family (each hold x each position, foreign source/destination names) and on every other real history; design level: C12_Held on BertE.tla.', 'TLA+ trace monitors on real executions + model'),
+ 'C13': ('model_checking', 'T', 'Design level: spec/Server.tla (put_job / process_task at source-line granularity, ghost pending) exhaustively model-checked by TLC: 2 hooks with liveness, 3 hooks x 2 events x 2 keys x 4 outcomes for safety. Code level: the real BertE.put_job / process_task run under a deterministic line scheduler (sys.settrace); every schedule with <= 2 (quick) / 3 (thorough) preemptions of several scenarios is executed and validated by TLC against Server\'s transition rules and C13\'s properties (spec/TraceServer.tla).', 'TLA+ model (TLC) + systematic schedule exploration of the real methods validated by a TLA+ trace spec'),
+ 'C14': ('model_checking', 'F', 'The full request matrix of spec/Api.tla (API paths x methods x sessions x parameter classes, forms, both webhook routes x credentials x repository identity x event types) is sent to the real Flask application through the test client; registered routes are compared with the specified table.', 'TLA+ table enumerated by TLC, differential against the real Flask app'),
  'C15': ('model_checking', 'S+Mon', 'TraceMon clauses C15.* (Lossy computed in TLA+ from the commit DAG and the source history) on the reset family: random orders of amend / rebase / push / rewind / destination move / manual commits, then reset or force_reset, with bystander PRs.', 'TLA+ trace monitors on real executions'),
+ 'C17': ('model_checking', 'F+T', '(a) every ordered list of <= 3 (quick) / 4 (thorough) workflow runs over the stated alphabet: spec/BuildStatus.tla decides whether the aggregate may be SUCCESSFUL, the real AggregatedWorkflowRuns.state is computed for each. (b) spec/StatusCache.tla model-checked (cache sizes 1, 2); every sequence of <= 3/4 host updates / webhook events / polls plus seeded walks executed on the real Bitbucket client (scripted session), the real webhook route and the real bounded cache, judged by spec/TraceCache.tla.', 'TLA+ oracle + TLA+ cache model (TLC) + trace validation of real sequences'),
  'C18': ('model_checking', 'F', 'Exhaustive over the bounded grammar of spec/Names.tla (22k names) + round trips through the real name builders.', 'TLA+ grammar enumerated by TLC, differential against branch_factory'),
  'C19': ('model_checking', 'S+Mon', 'TraceMon clauses C19.* after every evaluation of the events family (PR / child PR / commit events in random order and multiplicity, both always_create_* settings, decline or merge) and of all other histories; design level C19_Children.', 'TLA+ trace monitors on real executions + model'),
  'C20': ('model_checking', 'S+Mon', 'TraceMon clauses C20.* on the admin family (create / delete branch over names older, between, newer, existing, archived, with branch_from, 0-2 queued PRs incl. hotfix queue, queues on/off; rebuild / delete / force-merge queues).', 'TLA+ trace monitors on real executions'),
 }
 NOT_YET = {
- 'C13': 'check not built yet (Server.tla + line scheduler, DESIGN.md section 7)',
- 'C14': 'check not built yet (Api.tla + Flask test client)',
  'C16': 'check not built yet (Secrets fault plan)',
- 'C17': 'check not built yet (BuildStatus.tla / StatusCache.tla)',
 }
 
 
@@ -51,7 +51,7 @@ def main():
             thorough_cmd='bin/check %s --tier thorough' % p,
             evidence_file='/verif/evidence/%s.json' % p,
             replay_cmd_template='bin/check %s --replay {path}' % p,
-            engine='sys' if 'S' in group else 'oracle',
+            engine='sys' if 'S' in group else ('threads' if group == 'T' else 'oracle'),
             level_claimed=dict(category=level, text=text, design_ref='DESIGN.md section 7 (%s) and section 11' % p),
             level_note=SYS_NOTE if 'S' in group else F_NOTE, technique=tech))
     na = [dict(property_id=p, reason=NOT_YET.get(p, 'check not built yet')) for p in props
@@ -72,7 +72,10 @@ def main():
                  dict(name='oracle', path='harness/checks/*.py + spec/{Gates,QueueOracle,Cascade,Jira,Names,Reactor}.tla',
                       serves_properties=[p for p in props if p in CHECKS and CHECKS[p][1].startswith('F') and enabled(p)],
                       kind_free_text='pure decision functions: TLA+ oracle enumerated/evaluated by TLC over the whole '
-                                     'quantified domain, every case executed on the real function')],
+                                     'quantified domain, every case executed on the real function'),
+                 dict(name='threads', path='harness/linesched.py + spec/Server.tla + spec/TraceServer.tla',
+                      serves_properties=['C13'],
+                      kind_free_text='line-granularity scheduler over the real dispatcher methods; TLA+ model + trace spec')],
         checks=checks, not_applicable=na,
         notes='fix: commits in /repo: e99351e (C03), 5e23f97 (C05/C03), 7551276 (C02); see known_findings.json')
     path = os.path.join(HERE, 'MANIFEST.json')
